@@ -272,8 +272,30 @@ impl<'a> G<'a> {
                 if !c.is_empty() {
                     let sid = *self.rng.pick(&c);
                     let eos = self.rng.chance(1, 4);
-                    let block: Vec<u8> = if self.rng.chance(1, 8) { vec![0x08, 0x03, b'1', b'0', b'3'] } else { vec![0x88] };
-                    let informational = block.len() > 1;
+                    fn lit(n: &[u8], v: &[u8]) -> Vec<u8> {
+                        let mut b = vec![0x00, n.len() as u8];
+                        b.extend_from_slice(n);
+                        b.push(v.len() as u8);
+                        b.extend_from_slice(v);
+                        b
+                    }
+                    let informational = self.rng.chance(1, 8);
+                    let mut block: Vec<u8> = if informational { vec![0x08, 0x03, b'1', b'0', b'3'] } else { vec![0x88] };
+                    if !informational {
+                        // C13: now and then a head that violates exactly one rule of RFC 9113 section 8
+                        match self.rng.below(40) {
+                            0 => block = lit(b"x-a", b"1"),                       // no :status at all
+                            1 => block.push(0x84),                                // :path in a response
+                            2 => block.extend(lit(b"connection", b"close")),      // connection-specific field
+                            3 => block.extend(lit(b"te", b"gzip")),               // TE other than trailers
+                            4 => block.extend(lit(b"content-length", b"7")),      // body will (very probably) disagree
+                            5 => block.extend(lit(b"content-length", b"0")),
+                            6 => block = [lit(b"x-a", b"1"), vec![0x88]].concat(), // pseudo after regular
+                            7 => block.extend(vec![0x88]),                        // duplicated :status
+                            8 => block = vec![0x89],                              // 204
+                            _ => {}
+                        }
+                    }
                     if !informational {
                         if let Some(s) = self.streams.get_mut(&sid) {
                             s.responded = true;
@@ -289,7 +311,16 @@ impl<'a> G<'a> {
                 let c = self.live_sids(|s| s.responded && !s.peer_closed);
                 if !c.is_empty() {
                     let sid = *self.rng.pick(&c);
-                    self.peer_data(sid);
+                    if self.rng.chance(1, 12) {
+                        // trailers: valid, or carrying a pseudo-header field (C13)
+                        let block: Vec<u8> = if self.rng.chance(1, 3) { vec![0x88] } else { vec![0x00, 0x03, b'x', b'-', b't', 0x01, b'1'] };
+                        if let Some(s) = self.streams.get_mut(&sid) {
+                            s.peer_closed = true;
+                        }
+                        self.peer(wire(1, 5, sid, &block));
+                    } else {
+                        self.peer_data(sid);
+                    }
                 }
             }
             67..=74 => {
@@ -361,6 +392,11 @@ impl<'a> G<'a> {
                 let b = *self.rng.pick(&["0", "1", "9", "100", "20000", "inf", "inf"]);
                 self.op(format!("cn_budget {}", b));
             }
+            95 => {
+                if let Some(k) = self.pick_slot() {
+                    self.op(format!("cn_rtrailers {}", k));
+                }
+            }
             91 if !flow => {
                 let t = *self.rng.pick(&[0u32, 1000, 65535, 100000, 1 << 20]);
                 self.op(format!("cn_target {}", t));
@@ -396,6 +432,17 @@ impl<'a> G<'a> {
                 self.next_peer_sid += 2;
                 let eos = self.rng.chance(1, 5);
                 let mut block = vec![if self.rng.chance(1, 2) { 0x83 } else { 0x82 }, 0x86, 0x84, 0x41, 0x01, b'a'];
+                match self.rng.below(40) {
+                    0 => block = vec![0x82, 0x86, 0x41, 0x01, b'a'],                    // no :path
+                    1 => block = vec![0x82, 0x84, 0x41, 0x01, b'a'],                    // no :scheme
+                    2 => block = vec![0x86, 0x84, 0x41, 0x01, b'a'],                    // no :method
+                    3 => block.push(0x88),                                              // :status in a request
+                    4 => block.extend_from_slice(&[0x00, 0x0a, b'c', b'o', b'n', b'n', b'e', b'c', b't', b'i', b'o', b'n', 0x01, b'x']),
+                    5 => block.extend_from_slice(&[0x00, 0x02, b't', b'e', 0x04, b'g', b'z', b'i', b'p']),
+                    6 => block.push(0x82),                                              // duplicated :method
+                    7 => block = vec![0x82, 0x86, 0x04, 0x00, 0x41, 0x01, b'a'],        // empty :path
+                    _ => {}
+                }
                 if self.rng.chance(1, 8) {
                     block.extend_from_slice(&[0x0f, 0x0d, 0x02, b'1', b'0']); // content-length: 10
                 }
